@@ -142,6 +142,7 @@ func runC12(c *Ctx) {
 		}
 		// sweep deletes each collected output
 		checkPerIteration(c, "C12-R2", delExp, "var:expiredOutputs", "unlockOutput", 1, "an expired lease collected by the sweep is not deleted")
+		checkCallbackPointersNotRetained(c, "C12-R2")
 	}
 
 	// R3: ownership guards
